@@ -36,6 +36,8 @@ func main() {
 			}
 			fn.WriteTo(os.Stdout)
 		}
+	case "check":
+		os.Exit(cmdCheck(os.Args[2:]))
 	case "vc":
 		os.Exit(cmdVC(os.Args[2:]))
 	default:
